@@ -174,7 +174,7 @@ pub fn run_batch(work_id: &str, cases: &[(usize, String)]) -> Result<Batch, Stri
     for line in text.lines() {
         if let Some(rest) = line.strip_prefix("CASE ") {
             if let Some((id, js)) = rest.split_once(' ') {
-                if let (Ok(id), Ok(co)) = (id.parse::<usize>(), serde_json::from_str::<CaseOut>(js)) {
+                if let (Ok(id), Ok(co)) = (id.parse::<usize>(), parse_case_out(js)) {
                     results.insert(id, co);
                 }
             }
@@ -184,4 +184,14 @@ pub fn run_batch(work_id: &str, cases: &[(usize, String)]) -> Result<Batch, Stri
         return Err(format!("generated binary reported {} of {} cases (exit {:?}); stderr tail: {}", results.len(), active.len(), out.status.code(), String::from_utf8_lossy(&out.stderr).lines().rev().take(5).collect::<Vec<_>>().join(" | ")));
     }
     Ok(Batch { dir, uncompilable, results, build_secs })
+}
+
+
+/// Answers may hold long lists (nested `Cons` objects): serde_json's default recursion limit of
+/// 128 is too low for them.
+fn parse_case_out(js: &str) -> Result<CaseOut, serde_json::Error> {
+    use serde::Deserialize;
+    let mut de = serde_json::Deserializer::from_str(js);
+    de.disable_recursion_limit();
+    CaseOut::deserialize(&mut de)
 }
